@@ -7,6 +7,9 @@ FRAME_RE = re.compile(r'^\s*\d+:\s+(.*)$')
 
 def normalise_message(msg):
     m = msg.strip()
+    if ' of `' in m:
+        # slice panics quote the whole string, which may itself hold back-quotes and newlines
+        m = m[:m.index(' of `')] + ' of `_`'
     m = re.sub(r'`[^`]*`', '`_`', m)
     m = re.sub(r'"[^"]*"', '"_"', m)
     m = re.sub(r"'[^']*'", "'_'", m)
